@@ -642,15 +642,18 @@ def block_target(kind: str) -> VF.FunctionContract:
     )
 
 
-def children_around_comment(host: str, kind: str) -> VF.FunctionContract:
+def children_around_comment(host: str, kind: str, shallow: bool = False) -> VF.FunctionContract:
     """a container (NAME: block, or §7::NAME section) with two children and a COLUMN-0 comment line between them (a field
     commented out with `//` at the margin): both children stay children of the container - the second one, indented like the
     first or deeper (both widths symbolic), is NOT re-parented - and the comment leads the second child"""
     head = [("IDENTIFIER", "sym"), ("BLOCK", None)] if host == "block" else [("SECTION", "§"), ("NUMBER", ("intval", 7)), ("ASSIGN", None), ("IDENTIFIER", "sym")]
     h = len(head)
-    spine = head + [("NEWLINE", None), _indent("n"), ("IDENTIFIER", "sym"), ("ASSIGN", None), (kind, "sym"), ("NEWLINE", None), ("COMMENT", "sym"), ("NEWLINE", None), _indent("n2"), ("IDENTIFIER", "sym"), ("ASSIGN", None), (kind, "sym"), ("NEWLINE", None), ("EOF", None)]
+    # shallow: the comment line is indented by m spaces, 1 <= m < n (it carries an INDENT token); otherwise it is at column 0
+    cline = ([_indent("m")] if shallow else []) + [("COMMENT", "sym"), ("NEWLINE", None)]
+    spine = head + [("NEWLINE", None), _indent("n"), ("IDENTIFIER", "sym"), ("ASSIGN", None), (kind, "sym"), ("NEWLINE", None)] + cline + [_indent("n2"), ("IDENTIFIER", "sym"), ("ASSIGN", None), (kind, "sym"), ("NEWLINE", None), ("EOF", None)]
     toks = _toks(spine)
-    i_n, k1, v1, cpos, i_n2, k2, v2 = h + 1, h + 2, h + 4, h + 6, h + 8, h + 9, h + 11
+    sh = 1 if shallow else 0
+    i_n, k1, v1, cpos, i_n2, k2, v2 = h + 1, h + 2, h + 4, h + 6 + sh, h + 8 + sh, h + 9 + sh, h + 11 + sh
     want = "Block" if host == "block" else "Section"
 
     def ch(r):
@@ -659,7 +662,11 @@ def children_around_comment(host: str, kind: str) -> VF.FunctionContract:
     def pre(a):
         n = S.attr(_tk(a, i_n), "value")
         n2 = S.attr(_tk(a, i_n2), "value")
-        return S.And(_pre([v1, v2] if kind == "NUMBER" else [], depth=False)(a), n >= 1, n2 >= n)
+        base = S.And(_pre([v1, v2] if kind == "NUMBER" else [], depth=False)(a), n >= 1, n2 >= n)
+        if shallow:
+            m = S.attr(_tk(a, h + 6), "value")
+            return S.And(base, m >= 1, m < n)
+        return base
 
     def lead(c):
         lc = S.attr(c, "leading_comments")
@@ -670,7 +677,7 @@ def children_around_comment(host: str, kind: str) -> VF.FunctionContract:
     return VF.FunctionContract(
         PARSER,
         "Parser.parse_section",
-        label=f"#{host}[K1::{kind} / // c at column 0 / K2::{kind}]@any-indent",
+        label=f"#{host}[K1::{kind} / // c " + ("indented less than the children" if shallow else "at column 0") + f" / K2::{kind}]@any-indent",
         inline_depth=8,
         setup=lambda I: setattr(I, "recursion_ok", {PARSER + ":Parser.parse_section"}),
         params={"self": _parser(toks, nested=False), "base_indent": VF.Const(0)},
